@@ -238,7 +238,7 @@ func init() {
 			var crash []*Scenario
 			for _, sc := range FamilyCrash(tier) {
 				n := sc.Name
-				if strings.HasPrefix(n, "crash-chk-") || strings.HasPrefix(n, "crash-b2-n2-a2-c2-") || strings.HasPrefix(n, "crash-b1-n2-a2-") || n == "crash-all-groups" || strings.HasSuffix(n, "-def") || tier == "thorough" {
+				if strings.HasPrefix(n, "crash-chk-") || strings.HasPrefix(n, "crash-b2-n2-a2-c2-") || strings.HasPrefix(n, "crash-b1-n2-a2-") || n == "crash-all-groups" || strings.HasSuffix(n, "-def") || strings.HasPrefix(n, "crash-retry-tz") || tier == "thorough" {
 					crash = append(crash, sc)
 				}
 			}
